@@ -287,14 +287,16 @@ func (m *memStore) Query(expression string, options ...spi.QueryOption) (spi.Ite
 
 			keys, dbEntries := m.getMatchingKeysAndDBEntries(expressionTagName, "")
 
-			queryResults[expressionTagName] = &queryResult{keys: keys, dbEntries: dbEntries}
+			queryResults[exp] = &queryResult{keys: keys, dbEntries: dbEntries}
 		case expressionTagNameAndValueLength:
 			expressionTagName := expressionSplit[0]
 			expressionTagValue := expressionSplit[1]
 
 			keys, dbEntries := m.getMatchingKeysAndDBEntries(expressionTagName, expressionTagValue)
 
-			queryResults[expressionTagName] = &queryResult{keys: keys, dbEntries: dbEntries}
+			// Results are keyed by the whole criterion: two criteria on the same tag name (a:1&&a:2)
+			// must both be satisfied, one must not overwrite the other.
+			queryResults[exp] = &queryResult{keys: keys, dbEntries: dbEntries}
 		default:
 			return nil, errInvalidQueryExpressionFormat
 		}
